@@ -135,6 +135,13 @@ class SymSeq(object):
         return Obj(self.cls, fields)
 
 
+class BList(object):
+    """a Python list of at most len(items) arrays whose length is a term: the result of a callee whose contract bounds the length of
+    the list it returns (the bound is an obligation of the callee).  Element k exists iff k < length."""
+    def __init__(self, items, length):
+        self.items, self.length = list(items), length
+
+
 class PyConst(object):
     """a concrete Python constant bound to a parameter by a contract variant (e.g. c = 1j)"""
     def __init__(self, value):
@@ -572,6 +579,8 @@ class SpecEval(object):
         sl = n.slice
         if isinstance(v, ListObj):
             v = tuple(v.items)
+        if isinstance(v, BList):
+            v = tuple(v.items)            # element k is meaningful only under k < len(list): contracts guard it with implies(len(..) > k, ..)
         if isinstance(v, tuple):
             k = self.ev(sl)
             k = z3.simplify(to_z3(k))
@@ -695,6 +704,8 @@ class SpecEval(object):
                 return args[0].length
             if isinstance(args[0], ListObj):
                 return z3.IntVal(len(args[0].items))
+            if isinstance(args[0], BList):
+                return args[0].length
             return args[0].shape[0] if isinstance(args[0], AV) else z3.IntVal(len(args[0]))
         if f == 'rows':
             return args[0].shape[0]
